@@ -10,6 +10,7 @@ package main
 // subject of such a splitter. Splitting on a line break is the business of */multi-line-token-text-untouched and not judged here.
 
 import (
+	"fmt"
 	"go/constant"
 	"go/token"
 	"go/types"
@@ -178,4 +179,152 @@ func c10TokenTextNotCut(w *World, r *Report, prop string) {
 		}
 	}
 	r.note("%s: %d GetText() sources, %d derived values followed", rule, len(seeds), len(set))
+}
+
+// C09|C10/sibling-independence: what the formatter prints for one child does not depend on its earlier siblings.
+//
+// The formatter walks the children of a node in a loop (`for _, pair := range ctx.AllMatchPair()`) and prints each from its own
+// tokens. State that is carried from one iteration to the next and *read inside the loop* - a list of keys that is appended to but
+// never reset, say - makes the text of the second child contain material of the first: the output parses, but it is another program.
+// Accumulating the output itself (lines appended to a slice, text added to a string, and used after the loop) is the normal case and
+// is recognised by the fact that nothing inside the loop reads the accumulated value except the operation that extends it.
+func c09SiblingIndependence(w *World, r *Report, prop string) {
+	rule := prop + "/sibling-independence"
+	ctxs := w.ctxTable()
+	n := 0
+	for _, fn := range formatterFuncs(w) {
+		// loops over a list of children
+		var headers []*ssa.BasicBlock
+		forEachInstr(fn, func(_ *ssa.BasicBlock, ins ssa.Instruction) {
+			ia, ok := ins.(*ssa.IndexAddr)
+			if !ok {
+				return
+			}
+			c, ok := stripIdentity(ia.X).(*ssa.Call)
+			if !ok {
+				return
+			}
+			if _, ai, ok := w.accessorOf(c, ctxs); !ok || !ai.Known || !strings.HasSuffix(ai.What, "*") {
+				return
+			}
+			var phi *ssa.Phi
+			switch ix := ia.Index.(type) {
+			case *ssa.BinOp:
+				phi, _ = ix.X.(*ssa.Phi)
+			case *ssa.Phi:
+				phi = ix
+			}
+			if phi != nil {
+				headers = append(headers, phi.Block())
+			}
+		})
+		seenH := map[*ssa.BasicBlock]bool{}
+		for _, h := range headers {
+			if seenH[h] {
+				continue
+			}
+			seenH[h] = true
+			loop := naturalLoop(h)
+			n++
+			key := fmt.Sprintf("%s: loop over children #%d carries nothing from one child into the text of the next", fnKey(fn), len(seenH))
+			bad := ""
+			for _, ins := range h.Instrs {
+				phi, ok := ins.(*ssa.Phi)
+				if !ok {
+					break
+				}
+				if phi.Comment == "rangeindex" {
+					continue
+				}
+				switch phi.Type().Underlying().(type) {
+				case *types.Slice, *types.Map:
+				default:
+					if !isStringType(phi.Type()) {
+						continue
+					}
+				}
+				// the values that flow around the loop
+				var inLoopVals []ssa.Value
+				for i, e := range phi.Edges {
+					if loop[h.Preds[i]] && e != ssa.Value(phi) {
+						inLoopVals = append(inLoopVals, e)
+					}
+				}
+				if len(inLoopVals) == 0 {
+					continue
+				}
+				// the accumulation: everything obtained from the carried value by extending it (concatenation, append, an accumulating
+				// helper that takes it and returns the same type, merges)
+				carried := map[ssa.Value]bool{phi: true}
+				isExt := func(ref ssa.Instruction, from ssa.Value) (ssa.Value, bool) {
+					switch x := ref.(type) {
+					case *ssa.BinOp:
+						if x.Op == token.ADD && (x.X == from || x.Y == from) {
+							return x, true
+						}
+					case *ssa.Phi:
+						return x, true
+					case *ssa.Call:
+						if bi, ok := x.Call.Value.(*ssa.Builtin); ok {
+							if bi.Name() == "append" && len(x.Call.Args) > 0 && x.Call.Args[0] == from {
+								return x, true
+							}
+							return nil, false
+						}
+						if types.Identical(x.Type(), from.Type()) {
+							for _, a := range x.Call.Args {
+								if a == from {
+									return x, true
+								}
+							}
+						}
+					case *ssa.Slice:
+						if x.X == from {
+							return x, true
+						}
+					}
+					return nil, false
+				}
+				for changed := true; changed; {
+					changed = false
+					for v := range carried {
+						if v.Referrers() == nil {
+							continue
+						}
+						for _, ref := range *v.Referrers() {
+							if !loop[ref.Block()] {
+								continue
+							}
+							if nv, ok := isExt(ref, v); ok && !carried[nv] {
+								carried[nv] = true
+								changed = true
+							}
+						}
+					}
+				}
+				for v := range carried {
+					if v.Referrers() == nil {
+						continue
+					}
+					for _, ref := range *v.Referrers() {
+						if _, isDbg := ref.(*ssa.DebugRef); isDbg || !loop[ref.Block()] || ref == ssa.Instruction(phi) {
+							continue
+						}
+						if _, ok := isExt(ref, v); ok {
+							continue
+						}
+						bad = fmt.Sprintf("the value accumulated across the children (%s, carried around the loop at %s) is read inside the loop by %s at %s: the text printed for one child contains what was collected from its earlier siblings", types.TypeString(phi.Type(), shortQual), w.instrPos(phi), instrKind(ref), w.instrPos(ref))
+					}
+				}
+			}
+			if bad == "" {
+				r.pass(rule, key, w.instrPos(h.Instrs[0]), "")
+			} else {
+				r.fail(rule, key, w.instrPos(h.Instrs[0]), bad)
+			}
+		}
+	}
+	if n == 0 {
+		r.fail(rule, "loops over children found", "internal/parser/packet_dsl_formattor.go", "no loop over an All<Child>() list found in the formatter")
+	}
 }
